@@ -24,6 +24,24 @@ type C13Case struct {
 	Sizes []int  `json:"sizes,omitempty"`
 }
 
+// sizes >= encTarget ask for a message whose protobuf ENCODING has exactly (size - encTarget) bytes
+const encTarget = 1 << 30
+
+// dataOpOfEncodedLen builds a DATA op whose marshalled length is exactly want (want >= 8).
+func dataOpOfEncodedLen(r *wvlib.Rng, want int, fileIndex int64) *pwr.SyncOp {
+	d := want
+	for tries := 0; tries < 8 && d >= 0; tries++ {
+		op := &pwr.SyncOp{Type: pwr.SyncOp_DATA, Data: make([]byte, d), FileIndex: fileIndex}
+		b, _ := proto.Marshal(op)
+		if len(b) == want {
+			op.Data = r.Bytes(d)
+			return op
+		}
+		d -= len(b) - want
+	}
+	panic(fmt.Sprintf("no data op encodes to %d bytes", want))
+}
+
 func c13Sizes(c *C13Case) []int {
 	r := wvlib.NewRng(c.Seed)
 	var s []int
@@ -34,6 +52,11 @@ func c13Sizes(c *C13Case) []int {
 			s = append(s, K32+d)
 		}
 		s = append(s, 0, 1, K32*2-9, K32*2, 3)
+	case "varint-edges":
+		// ENCODED message lengths on both sides of every length-prefix size step (1|2|3|4 bytes of uvarint)
+		for _, t := range []int{127, 128, 129, 3, 16383, 16384, 16385, 1, 2097151, 2097152, 2097153, 128, 16384} {
+			s = append(s, encTarget+t)
+		}
 	case "growth":
 		// lengths straddling the power-of-two growth steps, large then small
 		for _, p := range []int{1 << 15, 1 << 16, 1 << 17, 1 << 18, 1 << 20} {
@@ -119,6 +142,16 @@ func c13One(env *Env, m *wvlib.Model, c *C13Case) {
 	msgs := make([]*pwr.SyncOp, len(sizes))
 	lens := make([]string, len(sizes))
 	for i, n := range sizes {
+		if n >= encTarget {
+			if n-encTarget < 8 {
+				msgs[i] = &pwr.SyncOp{Type: pwr.SyncOp_DATA, Data: r.Bytes(n - encTarget)}
+			} else {
+				msgs[i] = dataOpOfEncodedLen(r, n-encTarget, int64(i%3))
+			}
+			b, _ := proto.Marshal(msgs[i])
+			lens[i] = fmt.Sprint(len(b))
+			continue
+		}
 		if n < 0 {
 			// a message whose encoding is empty (all fields zero): only its length prefix is on the wire
 			msgs[i] = &pwr.SyncOp{}
@@ -263,7 +296,7 @@ func c13One(env *Env, m *wvlib.Model, c *C13Case) {
 
 func runC13(env *Env) {
 	R := env.R
-	R.Rule = "message sequences (sizes 0 .. > 4 MiB, messages with an empty encoding incl. as the last one, lengths straddling 32 KiB and the power-of-two growth steps, large then small) x {none, gzip -2..9, brotli 0..9}; a save is requested at every message boundary, every popped checkpoint is gob-serialised and resumed in a new reader over the same bytes; distinct by (seed, compression); non-trivial = at least one checkpoint was popped and resumed"
+	R.Rule = "message sequences (sizes 0 .. > 4 MiB, messages with an empty encoding incl. as the last one, encoded lengths on both sides of every uvarint prefix step (127/128, 16383/16384, 2097151/2097152), lengths straddling 32 KiB and the power-of-two growth steps, large then small) x {none, gzip -2..9, brotli 0..9}; a save is requested at every message boundary, every popped checkpoint is gob-serialised and resumed in a new reader over the same bytes; distinct by (seed, compression); non-trivial = at least one checkpoint was popped and resumed"
 	if env.Replay != "" {
 		var c C13Case
 		replayCase(env, &c)
@@ -287,12 +320,12 @@ func runC13(env *Env) {
 	} else {
 		comps = []Comp{{"none", 0}, {"gzip", -2}, {"gzip", 1}, {"gzip", 9}, {"brotli", 0}, {"brotli", 1}, {"brotli", 5}, {"brotli", 9}}
 	}
-	nSeq := 6
+	nSeq := 7
 	if env.Thorough() {
 		nSeq = 40
 	}
 	rng := wvlib.NewRng(env.Seed)
-	shapes := []string{"straddle32k", "growth", "tiny", "random", "big", "random"}
+	shapes := []string{"straddle32k", "growth", "tiny", "random", "big", "random", "varint-edges"}
 	var cases []*C13Case
 	for i := 0; i < nSeq; i++ {
 		seed := rng.Next()
